@@ -1,2 +1,3 @@
 pub mod arith;
+pub mod defs;
 pub mod units;
